@@ -53,11 +53,36 @@ def state_registers(cpu):
 def _restore(cpu):
     regs = state_registers(cpu)
     saved = [(r, r.sf) for r in regs]
+    # module state written by some semantics (ARM: instruction set / endianness 'internals'): every
+    # path starts from the state the module had at import, as a fresh interpreter would
+    internals = getattr(cpu, "internals", None)
+    internals0 = _INTERNALS0.setdefault(cpu.__name__, dict(internals) if isinstance(internals, dict) else None)
 
     def f():
         for r, sf in saved:
             r.sf = sf
+        if internals0 is not None:
+            internals.clear()
+            internals.update(internals0)
     return f
+
+
+_INTERNALS0 = {}
+
+
+def _snapshot_internals():
+    "the 'internals' of every ISA module as they are at import (taken before anything is decoded or executed here)"
+    for mn in ISAS:
+        try:
+            m = importlib.import_module(mn)
+        except Exception:
+            continue
+        it = getattr(m, "internals", None)
+        if isinstance(it, dict):
+            _INTERNALS0[mn] = dict(it)
+
+
+_snapshot_internals()
 
 
 def const_of(x):
